@@ -14,6 +14,6 @@ variable {m n : Nat} [NeZero m] [NeZero n]
 theorem tie_topsis_ideal (A : Mat m n α) (o : Vec n Obj) (w : Vec n α) (d : Vec n α → Vec n α → α) :
     (Gen.topsis_ideal ⟨A⟩ ⟨fun j => (o j).sgn⟩ ⟨w⟩ d).v = Agg.ideal A o w := by
   funext j
-  simp only [Gen.topsis_ideal, Np.where, Np.equal, Np.max, Np.min, Np.multiply, Bc.zw, Red.red, Truthy.t, EMul.emul,
+  simp only [Gen.topsis_ideal, Np.where, Np.equal, Np.max, Np.min, Np.multiply, Np.asarray, Np.squeeze, Bc.zw, Red.red, Truthy.t, EMul.emul,
     Agg.ideal, Agg.weighted, Agg.colMax, Agg.colMin, id, sgn_eq_one, decide_eq_true_eq]
 end Skc.Tie
